@@ -24,6 +24,7 @@ type zzSyncEnv struct {
 	getterErrs   int  // getter errors still to be injected
 	errSinceHead bool // a getter error happened after the last accepted head
 	rangeReqs    [][2]uint64
+	netTop       uint64 // highest verified head handed out by the Head getter
 }
 
 // zzNewSyncEnv starts a real Syncer over the specification store holding chain[:stored].
@@ -52,6 +53,8 @@ func zzNewSyncEnv(ctx context.Context, K, stored, getterErrs int, gates bool) *z
 			case u.ID >= zzForeign:
 				out = 1 + zz.Choice("verdict.foreign", 2)
 			case adjacent:
+				out = 0
+			case zz.Param("NOSOFT", 0) == 1:
 				out = 0
 			default:
 				out = zz.Choice("verdict.skip", 2)
@@ -131,6 +134,9 @@ func zzNewSyncEnv(ctx context.Context, K, stored, getterErrs int, gates bool) *z
 		}
 		verr := header.Verify(p.TrustedHead, h)
 		if verr == nil {
+			if h.H > env.netTop {
+				env.netTop = h.H
+			}
 			return h, nil
 		}
 		if ve, ok := verr.(*header.VerifyError); ok && ve.SoftFailure {
